@@ -276,3 +276,69 @@ func TestC07LateMark(t *testing.T) {
 			"F", "0", "0", "0"}, "T", "late-mark", "nt")
 	}
 }
+
+// ---------------------------------------------------------------- failures reported from several goroutines at once
+
+// The reporting methods of T may be called from several goroutines at the same time (helpers the
+// body started and waits for): an iteration in which two, three or four helpers report a failure
+// at the same instant is a failed iteration, every time.
+func TestC07ConcurrentMarks(t *testing.T) {
+	o := kit.Get()
+	defer o.Close()
+	r := kit.NewRand(kit.Seed() + 72)
+	for rep := 0; rep < kit.N(3, 12); rep++ {
+		helpers := int(kit.Pick(r, 2, 2, 3, 4))
+		how := r.Intn(3)
+		iters := kit.N(12000, 60000)
+		stats := &progress.Stats{}
+		sc := &scenarios.Scenario{Name: "c07conc", ScenarioFn: func(*f1testing.T) f1testing.RunFn {
+			return func(t *f1testing.T) {
+				var ready, wg sync.WaitGroup
+				var gate atomic.Bool
+				ready.Add(helpers)
+				wg.Add(helpers)
+				for h := 0; h < helpers; h++ {
+					go func() {
+						defer wg.Done()
+						ready.Done()
+						for !gate.Load() {
+						}
+						switch how {
+						case 0:
+							t.Fail()
+						case 1:
+							t.Errorf("helper failed")
+						default:
+							t.Error(errors.New("helper failed"))
+						}
+					}()
+				}
+				ready.Wait()
+				gate.Store(true)
+				wg.Wait()
+			}
+		}}
+		as := workers.NewActiveScenario(sc, runkit.NewMetrics(nil, false), stats, log.NewDiscardLogger(), logrus.New())
+		as.Setup()
+		m := workers.New(uint64(iters), as)
+		pool := m.NewContinuousPool(2)
+		ctx, cancel := context.WithCancel(context.Background())
+		pool.Start(ctx)
+		select {
+		case <-m.WaitForCompletion():
+		case <-time.After(120 * time.Second):
+			cancel()
+			o.Fail("c07-pool-not-complete", "the users pool did not reach its limit")
+			continue
+		}
+		cancel()
+		tot := stats.Total()
+		if tot.SuccessfulIterationDurations.Count > 0 {
+			o.Fail("concurrent-failure-lost", fmt.Sprintf("%d iterations in each of which %d helper goroutines reported a failure at the same instant (way %d): %d of them were reported successful",
+				iters, helpers, how, tot.SuccessfulIterationDurations.Count))
+		}
+		o.Count("concurrent-marks", fmt.Sprintf("%d helpers", helpers))
+		o.Case("c01_ok", []string{"0", kit.I(iters), "0", kit.I(tot.SuccessfulIterationDurations.Count), kit.I(tot.FailedIterationDurations.Count), "0",
+			"F", "0", "0", "0"}, "T", "concurrent-mark", "nt")
+	}
+}
